@@ -169,7 +169,10 @@ Section Codec.
 
   Definition or_text (a b : option text) : option text := match b with Some _ => b | None => a end.
 
-  (** the loop over the flattened _type_info (parents first); getattr(inst, k, None) *)
+  (** the loop over the flattened _type_info (parents first); getattr(inst, k, None).
+      MEMBER-NAMESPACE RULE: [ffs] is [flat_decl]: every member comes with the namespace [dns] of the class that
+      DECLARES it (_get_members_etree recurses into __extends__ and takes cls.get_namespace() of the class it is
+      iterating), so a member inherited from a base in another namespace is written {base}a inside {derived}K *)
   Fixpoint enc_members (encf : ty -> text -> text -> val -> out xnode)
            (ffs : list (text * field)) (vals : list val) (nk : bool) : out (list xnode * list attr * option text) :=
     match ffs with
